@@ -44,6 +44,14 @@ partial def parseAModel (j : Json) : M (AModel Rat) := do
       let a ← getField j "a" >>= parseAModel
       let b ← getField j "b" >>= parseAModel
       pure (.sum a b)
+  | "gaussabs" => pure (.gaussAbsorption (← fRat j "amp") (← fRat j "mean") (← fRat j "stddev"))
+  | "scaled" => do
+      let m ← getField j "m" >>= parseAModel
+      pure (.scaled (← fRat j "k") m)
+  | "opaque" => do
+      let xs ← fRats j "xs"
+      let ys ← fRats j "ys"
+      pure (.opaque (xs.zip ys))
   | "redshift" => do
       let m ← getField j "m" >>= parseAModel
       pure (.redshift (← fRat j "zp1") m)
@@ -80,6 +88,18 @@ def dispatchC12M (op : String) (j : Json) : M Json := do
       let r := specIntegrate C transcQ unitless fu kw m x req conf
       pure (outcome (fun (p : Rat × ResUnit × Path) =>
         Json.mkObj [("value", jRat p.1), ("unit", Json.str p.2.1.name), ("path", Json.str p.2.2.name)]) r)
+  | "c12_table" => do
+      -- the model's own table: which kinds have an analytic form (`AModel.hasIntegrate`)
+      let e : Table Rat := (mkTable [1, 2] [0, 0] false).1
+      let kinds : List (String × AModel Rat) := [
+        ("box", .box 1 1 1), ("const", .constFlux 1 .photlam), ("gauss", .gauss 1 1 1),
+        ("gaussflux", .gaussFlux 1 1 1), ("lorentz", .lorentz 1 1 1), ("ricker", .ricker 1 1 1),
+        ("powerlaw", .powerLaw 1 1 1 .photlam), ("trapezoid", .trapezoid 1 1 1 1),
+        ("blackbody", .blackbody 1), ("blackbodynorm", .blackbodyNorm 1), ("empirical", .empirical e),
+        ("const1d", .const1D 1), ("sum", .sum (.const1D 1) (.const1D 1)),
+        ("redshift", .redshift 2 (.const1D 1)), ("gaussabs", .gaussAbsorption 1 1 1),
+        ("scaled", .scaled 2 (.const1D 1)), ("opaque", .opaque [])]
+      pure (Json.mkObj [("ok", Json.mkObj (kinds.map fun (n, m) => (n, Json.bool m.hasIntegrate)))])
   | "c12_eval" => do
       let C ← getField j "const" >>= parseAConst
       let m ← getField j "model" >>= parseAModel
@@ -90,6 +110,6 @@ def dispatchC12M (op : String) (j : Json) : M Json := do
 
 /-- ops of C12; `none`: not one of ours -/
 def dispatchC12 (op : String) (j : Json) : Option (M Json) :=
-  if op ∈ ["c12_integrate", "c12_eval"] then some (dispatchC12M op j) else none
+  if op ∈ ["c12_integrate", "c12_eval", "c12_table"] then some (dispatchC12M op j) else none
 
 end Synphot.Driver
